@@ -6,6 +6,8 @@ CooArray = namedtuple("CooArray", ["row", "col", "val", "key", "ind", "min", "de
 
 COO_QUICKSORT_LIMIT = 1 << 16
 COO_MEM_MULTIPLIER = 1.5
+# Smallest buffer the vectorizers allocate per window (entries, not bytes).
+COO_MIN_SIZE = 32
 
 # Verification hook (off unless VECTORIZERS_VERIF=1): lets the checks in /verif reach the
 # multi-level merge and buffer-growth paths with small corpora. numba freezes module globals
@@ -212,14 +214,20 @@ def coo_append(coo, tup):
         coo_sum_duplicates(coo)
         if (coo.key.shape[0] - np.abs(coo.min[0])) <= COO_QUICKSORT_LIMIT:
             merge_all_sum_duplicates(coo)
-            if coo.ind[0] >= 0.95 * coo.key.shape[0]:
+            if (
+                coo.ind[0] >= 0.95 * coo.key.shape[0]
+                or coo.ind[0] >= coo.key.shape[0] - 1
+            ):
                 coo = coo_increase_mem(coo)
 
     if coo.ind[0] == coo.key.shape[0] - 1:
         coo_sum_duplicates(coo)
         if (coo.key.shape[0] - np.abs(coo.min[0])) <= COO_QUICKSORT_LIMIT:
             merge_all_sum_duplicates(coo)
-            if coo.ind[0] >= 0.95 * coo.key.shape[0]:
+            if (
+                coo.ind[0] >= 0.95 * coo.key.shape[0]
+                or coo.ind[0] >= coo.key.shape[0] - 1
+            ):
                 coo = coo_increase_mem(coo)
 
     return coo
